@@ -20,7 +20,7 @@ MECHANISMS = [
     ('TotalDepth.common.Slice', 'Sample.gen_indices'), ('TotalDepth.common.Slice', 'Sample.count'),
     ('TotalDepth.common.Slice', 'create_slice_or_sample'),
 ]
-REQUIRED_MONITORS = ['slice_vs_python', 'sample_definition', 'parser_accepts', 'parser_rejects',
+REQUIRED_MONITORS = ['slice_vs_python', 'sample_definition', 'parser_accepts', 'parser_rejects', 'shared_object_interleaved',
                      'contract:Slice.indices', 'contract:Slice.count']
 MIN_NONTRIVIAL = {'quick': 20000, 'thorough': 150000}
 N_FOR = {'quick': 9, 'thorough': 14}
@@ -141,6 +141,33 @@ def run_shard(ctx, p):
             kk = rng.randrange(1, 2 * n + 3)
             k = check_sample(rec, S, kk, n)
             rec.case(('sample', kk, n), k >= 2 and kk < n, classes=['random-large-sample'])
+    # ---- one selector object used on several sequences at once (as the converters do: one --frame-slice object for every log pass)
+    import itertools as _it
+    for _ in range(400 if ctx.tier == 'quick' else 6000):
+        n1, n2 = rng.randrange(0, 60), rng.randrange(0, 60)
+        if rng.random() < 0.6:
+            k = rng.randrange(1, 40)
+            sel, fresh, desc = S.Sample(k), (lambda: S.Sample(k)), 'Sample(%d)' % k
+        else:
+            a, b, c = rng.choice([None, rng.randrange(-30, 30)]), rng.choice([None, rng.randrange(-30, 60)]), rng.choice([None, rng.randrange(1, 9)])
+            sel, fresh, desc = S.Slice(a, b, c), (lambda: S.Slice(a, b, c)), 'Slice(%r,%r,%r)' % (a, b, c)
+        exp1, exp2 = fresh().indices(n1), fresh().indices(n2)
+        g1, g2 = sel.gen_indices(n1), sel.gen_indices(n2)
+        got1, got2 = [], []
+        m = rng.randrange(0, 60)
+        for x, y in _it.zip_longest(g1, g2):
+            if x is not None:
+                got1.append(x)
+            if y is not None:
+                got2.append(y)
+            if rng.random() < 0.3:      # other questions asked of the same object while the generators are live
+                rng.choice([sel.count, sel.first, sel.step, sel.indices])(m)
+        rec.mon('shared_object_interleaved')
+        rec.case(('interleaved', desc, n1, n2, m), len(exp1) >= 2 and len(exp2) >= 2 and n1 != n2, classes=['one-object-two-sequences'])
+        if got1 != exp1 or got2 != exp2 or sel.indices(n1) != exp1 or sel.count(n2) != len(exp2):
+            rec.violation('shared_object_interleaved', 'state-carried-over',
+                          '%s used on lengths %d and %d at once: generated %r and %r, a fresh selector gives %r and %r' % (desc, n1, n2, got1[:20], got2[:20], exp1[:20], exp2[:20]),
+                          {'selector': desc, 'n1': n1, 'n2': n2, 'got1': got1[:40], 'got2': got2[:40], 'expected1': exp1[:40], 'expected2': exp2[:40]})
     # ---- parser
     def parse(s):
         try:
